@@ -56,13 +56,15 @@ IdlePass == [ active |-> FALSE, actor |-> "", target |-> "", oid |-> "", ouid |-
               listed |-> <<>>, hasList |-> FALSE,       \* deployment controller: the ObjectSets it listed
               clash |-> "",
               gone404 |-> {},
-              created |-> FALSE ]                        \* deployment controller: this pass created an ObjectSet                           \* keys whose Delete was answered with NotFound                             \* deployment controller: key whose Create hit AlreadyExists
+              created |-> FALSE,
+              pulled |-> "",                             \* package controller: class of the content pulled in this pass
+              sliceWant |-> [ k \in Keys |-> "" ] ]      \* package controller: content hash of the slice it wanted under name k                        \* deployment controller: this pass created an ObjectSet                           \* keys whose Delete was answered with NotFound                             \* deployment controller: key whose Create hit AlreadyExists
 
 Init == /\ l = 1
         /\ store = [ k \in Keys |-> Absent ]
         /\ pass = [ p \in PassIds |-> IdlePass ]
         /\ lw = [ valid |-> FALSE, e |-> Trace[1] ]
-        /\ hist = [ succeeded |-> {}, archived |-> {}, creates |-> [ k \in Keys |-> 0 ] ]
+        /\ hist = [ succeeded |-> {}, archived |-> {}, creates |-> [ k \in Keys |-> 0 ], unpacked |-> [ k \in Keys |-> "" ] ]
         /\ scen = NoRow
 
 (* ---------------- helpers over a pass record ---------------- *)
@@ -71,6 +73,7 @@ IsSetActor(a)   == a \in {"os", "cos"}
 IsPhaseActor(a) == a \in {"ph", "cph"}
 IsOwnerActor(a) == IsSetActor(a) \/ IsPhaseActor(a)
 IsDepActor(a)   == a \in {"od", "cod"}
+IsPkgActor(a)   == a \in {"pk", "cpk"}
 
 Flatten(ss) == \* concatenation of a sequence of sequences
     LET F[i \in 0..Len(ss)] == IF i = 0 THEN <<>> ELSE F[i - 1] \o ss[i] IN F[Len(ss)]
@@ -143,7 +146,7 @@ TrReset ==
     /\ IsEv("Reset")
     /\ store' = [ k \in Keys |-> Absent ]
     /\ pass' = [ p \in PassIds |-> IdlePass ]
-    /\ hist' = [ succeeded |-> {}, archived |-> {}, creates |-> [ k \in Keys |-> 0 ] ]
+    /\ hist' = [ succeeded |-> {}, archived |-> {}, creates |-> [ k \in Keys |-> 0 ], unpacked |-> [ k \in Keys |-> "" ] ]
     /\ scen' = NoRow
     /\ Advance
 
@@ -187,7 +190,7 @@ TrPassEnd ==
 
 \* misc harness events that carry no state
 TrNote ==
-    /\ (IsEv("Note") \/ IsEv("Quiesced"))
+    /\ (IsEv("Note") \/ IsEv("Quiesced") \/ IsEv("C16Template") \/ IsEv("C18Check"))
     /\ UNCHANGED <<store, pass, hist, scen>>
     /\ Advance
 
@@ -241,6 +244,14 @@ TrRead ==
     /\ UNCHANGED <<store, hist, scen>>
     /\ Advance
 
+\* registry pull by the package controller
+TrPull ==
+    /\ IsEv("Pull")
+    /\ pass' = [ pass EXCEPT ![E.actor].calls = @ + 1, ![E.actor].pulled = E.args.class,
+                              ![E.actor].apiErr = @ \/ (E.res # "ok" /\ E.args.class # "pullError") ]
+    /\ UNCHANGED <<store, hist, scen>>
+    /\ Advance
+
 \* dynamic cache bookkeeping and list calls: no store effect
 TrOther ==
     /\ l <= Len(Trace) /\ E.actor \notin {"env", "sim"} /\ E.ev \in {"Watch", "Free", "List", "DynList"}
@@ -271,7 +282,12 @@ TrWrite ==
                                     THEN [ hist.creates EXCEPT ![pr.target] = @ + 1 ]
                                   ELSE IF E.pre.exists /\ ~E.post.exists /\ E.pre.kind \in {"ObjectSet", "ClusterObjectSet"} /\ DeploymentOf(E.pre) \in Keys
                                     THEN [ hist.creates EXCEPT ![DeploymentOf(E.pre)] = 0 ]
-                                  ELSE hist.creates ]
+                                  ELSE hist.creates,
+                    \* package controller persisted a (new) unpackedHash: remember for which spec
+                    unpacked  |-> IF IsPkgActor(E.actor) /\ E.ev = "StatusUpdate" /\ ok /\ k = pr.target /\ pr.hasSnap
+                                     /\ E.post.cr.hash # E.pre.cr.hash
+                                    THEN [ hist.unpacked EXCEPT ![k] = pr.snap.cr.tmplHash ]
+                                  ELSE hist.unpacked ]
        /\ pass' = [ pass EXCEPT
              ![p].calls = @ + 1,
              ![p].apiErr = @ \/ (~ok /\ ~(IsDepActor(pr.actor) /\ E.ev = "Create" /\ E.res = "AlreadyExists")),
@@ -293,13 +309,15 @@ TrWrite ==
              ![p].orev = IF k = pr.target /\ E.ev = "StatusUpdate" /\ @ = 0 THEN E.args.body.cr.revision ELSE @,
              ![p].status = IF k = pr.target /\ E.ev = "StatusUpdate" /\ ok THEN E.post ELSE @,
              ![p].statusWritten = @ \/ (k = pr.target /\ E.ev = "StatusUpdate" /\ ok),
+             ![p].sliceWant[k] = IF IsPkgActor(pr.actor) /\ E.ev = "Create" /\ ~E.dry /\ E.args.body.kind \in {"ObjectSlice", "ClusterObjectSlice"}
+                                   THEN E.args.body.cr.tmplHash ELSE @,
              ![p].clash = IF IsDepActor(pr.actor) /\ E.ev = "Create" /\ E.res = "AlreadyExists" THEN k ELSE @,
              ![p].finRemoved = @ \/ (k = pr.target /\ E.ev = "MergePatch" /\ ok /\ E.args.patch.setsFinalizers
                                      /\ "package-operator.run/cached" \notin Range(E.post.fin)) ]
     /\ UNCHANGED scen
     /\ Advance
 
-Next == TrReset \/ TrRow \/ TrEnv \/ TrCrash \/ TrPassBegin \/ TrPassEnd \/ TrNote \/ TrRead \/ TrOther \/ TrWrite
+Next == TrReset \/ TrRow \/ TrPull \/ TrEnv \/ TrCrash \/ TrPassBegin \/ TrPassEnd \/ TrNote \/ TrRead \/ TrOther \/ TrWrite
 
 Spec == Init /\ [][Next]_vars
 
@@ -862,6 +880,69 @@ Inv_C15_PausePropagation ==
     (CtlWrite /\ ~W.dry /\ IsSetActor(W.actor) /\ W.ev = "MergePatch" /\ W.pre.kind \in {"ObjectSetPhase", "ClusterObjectSetPhase"})
     => /\ W.args.patch.setsPaused /\ W.args.patch.paused = SnapPaused(PR) /\ ~W.args.patch.other
        /\ ~W.args.patch.setsOwners /\ ~W.args.patch.setsFinalizers
+
+---------------------------------------------------------------------------
+(* C16 only valid, admissible packages roll out; unchanged packages are left alone (Package controller) *)
+
+DeployKinds == {"ObjectDeployment", "ClusterObjectDeployment", "ObjectSlice", "ClusterObjectSlice"}
+KindOfW == IF W.pre.exists THEN W.pre.kind ELSE W.post.kind
+PkgWrite == lw.valid /\ IsPkgActor(W.actor) /\ IsWrite(W.ev) /\ ~W.dry /\ PR.hasSnap /\ W.key # PR.target /\ Changed(W)
+             /\ KindOfW \in DeployKinds
+
+\* the only deployment write that does not need an admissible package: propagating spec.paused
+PauseOnly == W.ev = "Update" /\ W.pre.exists /\ W.post.exists /\ W.pre.cr.tmplHash = W.post.cr.tmplHash /\ W.pre.cr.paused # W.post.cr.paused
+
+Inv_C16_NoDeployUnlessAdmissible == PkgWrite => (PR.pulled = "valid" \/ PauseOnly)
+
+PkgEnd == lw.valid /\ W.ev = "PassEnd" /\ IsPkgActor(W.actor) /\ pass[W.actor].hasSnap
+PK == pass[W.actor]
+
+\* pull failures are shown as Unpacked=False, load failures and unmet constraints as Invalid=True — and persisted
+Inv_C16_Conditions ==
+    (PkgEnd /\ ~PK.apiErr /\ ~PK.snap.cr.paused /\ ~PK.snap.deleting)
+    => /\ PK.pulled = "pullError" => (W.res = "ok" /\ PK.statusWritten /\ CondIs(PK.status.cr, "Unpacked", "False", "ImagePullBackOff"))
+       /\ PK.pulled \in {"loadError", "constraintUnmet"} => (W.res = "ok" /\ PK.statusWritten /\ CondTrue(PK.status.cr, "Invalid"))
+       /\ (PK.pulled = "valid" /\ W.res = "ok" /\ PK.statusWritten) => ~CondTrue(PK.status.cr, "Invalid")
+
+\* a valid, admissible package rolls out: without API faults the pass that pulled it does not fail
+Inv_C16_ValidPackageDeploys ==
+    (PkgEnd /\ ~PK.apiErr /\ PK.pulled = "valid" /\ ~PK.snap.cr.paused /\ ~PK.snap.deleting) => W.res = "ok"
+
+\* a Package whose spec is unchanged since it was unpacked is not pulled again
+Inv_C16_NoRepull ==
+    (lw.valid /\ W.ev = "Pull" /\ IsPkgActor(W.actor) /\ PR.hasSnap)
+    => ~(PR.snap.cr.hash # "" /\ hist.unpacked[PR.target] = PR.snap.cr.tmplHash)
+
+\* after an error-free pass over an unpaused Package with a valid spec (unchanged since the pass read it) the
+\* ObjectDeployment template — slices inlined in order — equals a fresh render of that spec
+Inv_C16_TemplateIsRender ==
+    (lw.valid /\ W.ev = "C16Template" /\ W.args.specValid /\ ~W.args.passErr /\ PR.hasSnap /\ ~PR.snap.cr.paused /\ ~PR.apiErr
+       /\ store[PR.target].exists /\ store[PR.target].cr.tmplHash = PR.snap.cr.tmplHash /\ ~store[PR.target].cr.paused
+       /\ ~PR.snap.deleting /\ PR.statusWritten
+       /\ (PR.pulled = "valid" \/ (PR.pulled = "" /\ PR.snap.cr.hash # "" /\ hist.unpacked[PR.target] = PR.snap.cr.tmplHash)))
+    => W.args.matches
+
+\* C09: pausing a Package pauses its ObjectDeployment and stops unpacking/deploying
+Inv_C09_PackagePaused ==
+    (lw.valid /\ IsPkgActor(W.actor) /\ PR.hasSnap /\ PR.snap.cr.paused /\ ~PR.snap.deleting)
+    => /\ W.ev # "Pull"
+       /\ (IsWrite(W.ev) /\ ~W.dry /\ Changed(W) /\ W.key # PR.target /\ KindOfW \in DeployKinds)
+            => (PauseOnly /\ W.post.cr.paused)
+
+\* C14: slice garbage collection never deletes a slice referenced by the deployment template or any existing ObjectSet
+SlicesOf(o) == UNION { Range(o.cr.phases[j].slices) : j \in DOMAIN o.cr.phases }
+Inv_C14_GC ==
+    (lw.valid /\ IsPkgActor(W.actor) /\ W.ev = "Delete" /\ ~W.dry /\ W.res = "ok" /\ W.pre.exists
+       /\ W.pre.kind \in {"ObjectSlice", "ClusterObjectSlice"})
+    => \A k \in Keys : (store[k].exists /\ store[k].kind \in {"ObjectSet", "ClusterObjectSet", "ObjectDeployment", "ClusterObjectDeployment"})
+                         => W.key \notin SlicesOf(store[k])
+
+\* C14: a slice name is only used for the content it was computed from (a colliding name is never reused)
+Inv_C14_SliceContent ==
+    (lw.valid /\ IsPkgActor(W.actor) /\ W.ev = "Update" /\ ~W.dry /\ W.res = "ok" /\ W.post.exists
+       /\ W.post.kind \in {"ObjectDeployment", "ClusterObjectDeployment"})
+    => \A sk \in SlicesOf(W.post) :
+          (sk \in Keys /\ PR.sliceWant[sk] # "") => (store[sk].exists /\ store[sk].cr.tmplHash = PR.sliceWant[sk])
 
 Inv_C19_NoPanic == ~(lw.valid /\ W.ev \in {"Panic", "Timeout"})
 
